@@ -70,11 +70,14 @@ CHECKS = {
   text="Coq theorems, Closed under the global context, for every state, limit and size: a v5.0 packet of any kind larger than the peer's Maximum "
        "Packet Size is never passed to the transport; an alias-rewritten publish is re-checked; everything retransmitted from the store fits "
        "and what does not fit is dropped; an inbound frame larger than the local maximum is never delivered and is reported as Packet too "
-       "large (never panics). PARTIAL (C14_partial): the single statement over all send paths incl. automatic responses is decided by the "
-       "monitor mon_c14 (size <= limit for every ESend of the implementation, release of dropped ids, DISCONNECT 0x95) and the correspondence.",
+       "large (never panics); and THE statement over all send paths (C14_step_sends_fit, by a walk through every function of the model): "
+       "for EVERY call of the API in every state — user sends, automatic responses, error DISCONNECTs, timer PINGREQ, CONNACK refusals, store "
+       "retransmission, alias-rewritten publishes — every v5.0 packet requested for sending fits the limit in force when the call returns; "
+       "lifted to all histories. The implementation is judged by the monitor mon_c14 (size <= limit for every ESend, release of dropped ids, "
+       "DISCONNECT 0x95) and tied to the model by the correspondence.",
   ref="DESIGN.md §3 C14",
   note=CONN_NOTE,
-  technique="Coq all-states proofs for direct/rewritten/stored/inbound paths + size monitor + differential correspondence"),
+  technique="Coq proof for every call of the model (all send paths, all states, all histories) + size monitor + differential correspondence"),
  "C10": dict(
   text="Coq theorems, Closed under the global context. For EVERY state (hence every first history and close path): notify_closed resets the "
        "packet-size limits, alias tables, partial frame, pending subscribe/unsubscribe ids and all timers, ends a non-persistent session, and "
